@@ -202,6 +202,14 @@ func (msg Message) Generate(w io.Writer, settings GenerateSettings) {
 }
 
 func writeMessageFieldUnmarshaller(name string, typ FieldType, w *iohelp.ErrorWriter, settings GenerateSettings, depth int) {
+	nested := (typ.Array != nil && (typ.Array.Array != nil || typ.Array.Map != nil)) ||
+		(typ.Map != nil && (typ.Map.Value.Array != nil || typ.Map.Value.Map != nil))
+	if nested && !strings.HasPrefix(name, "(") {
+		// containers of containers need an index variable per depth and a receiver that is
+		// dereferenced once, at the field; the struct emitter provides both
+		writeStructFieldUnmarshaller("&(*"+name+")", typ, w, settings, depth)
+		return
+	}
 	if typ.Array != nil {
 		// see writeStructFieldUnmarshaller: the announced length is not trusted
 		laName := arrayLengthName(settings)
